@@ -288,5 +288,5 @@ func TestC11(t *testing.T) {
 		}
 		c.High = genHigh(t, total)
 		return c
-	}, Run: runC11})
+	}, Run: runC11, Pre: preScaleC11})
 }
